@@ -268,16 +268,37 @@ func (a *Operator) useHexEscapes(input string) string {
 func (o *Operator) dontUseFlagsForMetaCharacters(input string) string {
 	result := input
 	flagsStartRegexp := regexp.MustCompile(`\(\?[-misU]+\)`)
-	result = flagsStartRegexp.ReplaceAllLiteralString(result, "")
-
 	flagGroupStartRegexp := regexp.MustCompile(`\(\?[-misU]+:`)
-	for {
-		location := flagGroupStartRegexp.FindStringIndex(result)
-		if len(location) > 0 {
-			result = o.removeGroup(result, location[0], location[1], false)
-		} else {
+	// Only consider matches whose opening parenthesis is not escaped,
+	// e.g., `\(?i:` is an optional literal parenthesis followed by `i:`.
+	offset := 0
+	for offset <= len(result) {
+		location := flagsStartRegexp.FindStringIndex(result[offset:])
+		if len(location) == 0 {
 			break
 		}
+		start, end := offset+location[0], offset+location[1]
+		if utils.IsEscaped(result, start) {
+			offset = start + 1
+			continue
+		}
+		result = result[:start] + result[end:]
+		offset = start
+	}
+
+	offset = 0
+	for offset <= len(result) {
+		location := flagGroupStartRegexp.FindStringIndex(result[offset:])
+		if len(location) == 0 {
+			break
+		}
+		start, end := offset+location[0], offset+location[1]
+		if utils.IsEscaped(result, start) {
+			offset = start + 1
+			continue
+		}
+		result = o.removeGroup(result, start, end, false)
+		offset = start
 	}
 	return result
 }
